@@ -9,9 +9,10 @@ Representation:
 * `ir_query.variables : BTreeMap<Arc<str>, Type>` and `arguments : BTreeMap<Arc<str>, FieldValue>` are
   association lists *in the maps' iteration order* (the caller lists them in key order; nothing here
   depends on the order relation itself, only on the order of the list); `N` is the type of names;
-* types are the mask-based `Ty` of `Model/Ty.lean`; `is_valid_value` is `Ty.isValidValue`, so an
-  argument value with a `FieldValue::Enum` leaf that the traversal reaches is the outcome `panic`
-  (`unimplemented!`, base.rs:380 — F-14);
+* types are the mask-based `Ty` of `Model/Ty.lean`; `is_valid_value` is `Ty.isValidValue`, a total
+  `Bool` function: a `FieldValue::Enum` is valid for no type, so an enum argument value is an
+  ordinary `ArgumentTypeError` (history: the enum arm was `unimplemented!`, base.rs:380, and an enum
+  leaf reached by the traversal was the outcome `panic` of `validate` — F-14, repaired);
 * `ArgumentTypeError(name, type.to_string(), value)` keeps the type itself (its text is
   `Ty.display`) and the value.
 
@@ -61,50 +62,38 @@ def getArg (args : List (N × Value)) (n : N) : Option Value :=
   | none => none
 
 /-- `validate_argument_type`: `Ok(())` is `none`. -/
-def validateArgumentType (name : N) (ty : Ty) (value : Value) : Outcome (Option (ArgErr N)) :=
-  match isValidValue ty value with
-  | .ok true => .ok none
-  | .ok false => .ok (some (.argumentTypeError name ty value))
-  | .panic => .panic
+def validateArgumentType (name : N) (ty : Ty) (value : Value) : Option (ArgErr N) :=
+  if isValidValue ty value then none else some (.argumentTypeError name ty value)
 
 /-- The `for (variable_name, variable_type) in &variables` loop: the type errors pushed onto
 `errors` and the names pushed onto `missing_arguments`, both in iteration order. -/
-def checkVariables (args : List (N × Value)) :
-    List (N × Ty) → Outcome (List (ArgErr N) × List N)
-  | [] => .ok ([], [])
+def checkVariables (args : List (N × Value)) : List (N × Ty) → List (ArgErr N) × List N
+  | [] => ([], [])
   | (name, ty) :: rest =>
+    let (errors, missing) := checkVariables args rest
     match getArg args name with
     | some value =>
-      match validateArgumentType name ty value with
-      | .panic => .panic
-      | .ok e =>
-        match checkVariables args rest with
-        | .panic => .panic
-        | .ok (errors, missing) =>
-          .ok ((match e with | some e => e :: errors | none => errors), missing)
-    | none =>
-      match checkVariables args rest with
-      | .panic => .panic
-      | .ok (errors, missing) => .ok (errors, name :: missing)
+      ((match validateArgumentType name ty value with | some e => e :: errors | none => errors),
+        missing)
+    | none => (errors, name :: missing)
 
 /-- `arguments.keys().filter(|arg| !variables.contains_key(arg))`. -/
 def unusedArguments (vars : List (N × Ty)) (args : List (N × Value)) : List N :=
   (args.map (·.1)).filter fun k => !(vars.any fun nt => nt.1 == k)
 
 /-- `InterpretedQuery::from_query_and_arguments`: `ok (.ok ())` = accepted,
-`ok (.error e)` = `Err(e)`, `panic` = a panic (reached through `is_valid_value`). -/
+`ok (.error e)` = `Err(e)`.  The only panic site left is the `assert!(!v.is_empty())` of
+`errors.into()`, which sits behind `errors.is_empty()` (`C12.validate_total`: never reached). -/
 def validate (vars : List (N × Ty)) (args : List (N × Value)) : Outcome (Except (ArgsError N) Unit) :=
-  match checkVariables args vars with
-  | .panic => .panic
-  | .ok (errors, missing) =>
-    let errors := if missing.isEmpty then errors else errors ++ [.missingArguments missing]
-    let unused := unusedArguments vars args
-    let errors := if unused.isEmpty then errors else errors ++ [.unusedArguments unused]
-    if errors.isEmpty then .ok (.ok ())
-    else
-      match ArgsError.ofVec errors with
-      | .ok e => .ok (.error e)
-      | .panic => .panic
+  let (errors, missing) := checkVariables args vars
+  let errors := if missing.isEmpty then errors else errors ++ [.missingArguments missing]
+  let unused := unusedArguments vars args
+  let errors := if unused.isEmpty then errors else errors ++ [.unusedArguments unused]
+  if errors.isEmpty then .ok (.ok ())
+  else
+    match ArgsError.ofVec errors with
+    | .ok e => .ok (.error e)
+    | .panic => .panic
 
 /-! ### The type the query implies for a variable -/
 
